@@ -10,7 +10,7 @@ package pbft
 //@ func (*ConsensusState).ValidateBlock
 //@   props C02 C08
 //@   let s = cs.state
-//@   requires cs != nil && cs.state != nil && wfValSet(cs.state.Validators) && wfValSet(cs.state.LastValidators) && wfBlock(block)
+//@   requires cs != nil && cs.state != nil && cs.state.Validators != nil && cs.state.LastValidators != nil && wfBlock(block)
 //@   assigns  block.Data.hash, block.LastCommit.hash, block.LastCommit.firstPrecommit, cs.state.LastValidators.totalVotingPower
 //@   ensures  [chain-id] result == nil ==> block.Header.ChainID == s.ChainID
 //@   ensures  [height-follows] result == nil ==> block.Header.Height == s.LastBlockHeight + 1
@@ -49,20 +49,25 @@ package pbft
 //@ func (*HeightVoteSet).Prevotes
 //@   props C15 C08 C04
 //@   requires hvs != nil
+//@   invariant-assumed wfHVS(hvs)
 //@   noalloc
 //@   assigns  hvs.mtx.*
 //@   ensures  result == ite(has(hvs.roundVoteSets, round), hvs.roundVoteSets[round].Prevotes, nil)
+//@   ensures  result != nil ==> result.type_ == 1 && result.round == round
 
 //@ func (*HeightVoteSet).Precommits
 //@   props C15 C08 C04
 //@   requires hvs != nil
+//@   invariant-assumed wfHVS(hvs)
 //@   noalloc
 //@   assigns  hvs.mtx.*
 //@   ensures  result == ite(has(hvs.roundVoteSets, round), hvs.roundVoteSets[round].Precommits, nil)
+//@   ensures  result != nil ==> result.type_ == 2 && result.round == round
 
 //@ func (*HeightVoteSet).POLInfo
 //@   props C15 C08 C04
-//@   requires wfHVS(hvs)
+//@   requires hvs != nil
+//@   invariant-assumed wfHVS(hvs)
 //@   noalloc
 //@   assigns  hvs.mtx.*, alloftype(sync.Mutex)
 //@   ensures  [pol-is-a-polka] polRound >= 0 ==> polRound <= hvs.round && hvs.roundVoteSets[polRound].Prevotes.maj23 != nil && polBlockID == *hvs.roundVoteSets[polRound].Prevotes.maj23
@@ -85,7 +90,8 @@ package pbft
 
 //@ func (*HeightVoteSet).SetRound
 //@   props C08 C04
-//@   requires wfHVS(hvs)
+//@   requires hvs != nil
+//@   invariant-assumed wfHVS(hvs)
 //@   aborts when hvs.round != 0 && round < hvs.round + 1
 //@   assigns  hvs.roundVoteSets[*], hvs.round, hvs.mtx.*
 //@   ensures  hvs.round == round || (old(hvs.round) == 0 && round < 0)
@@ -98,10 +104,12 @@ package pbft
 
 //@ func (*HeightVoteSet).AddVote
 //@   props C15 C08 C04
-//@   requires wfHVS(hvs) && vote != nil
+//@   requires hvs != nil && vote != nil
+//@   invariant-assumed wfHVS(hvs)
+//@   assigns  allbut(ConsensusState, RoundState, state.State, types.Block, types.Header, types.Vote, types.Proposal, ConsensusReactor)
+//@   ensures  hvs.round == old(hvs.round) && hvs.height == old(hvs.height)
 //@   ensures  [accepted-only-if-valid] added ==> (vote.Type == 1 || vote.Type == 2) && has(hvs.roundVoteSets, vote.Round)
 //@   ensures  [catchup-bounded] !old(has(hvs.roundVoteSets, vote.Round)) && has(hvs.roundVoteSets, vote.Round) ==> old(len(hvs.peerCatchupRounds[peerKey])) < 2 && len(hvs.peerCatchupRounds[peerKey]) == old(len(hvs.peerCatchupRounds[peerKey])) + 1
-//@   ensures  [modified-set-stays-wf] added ==> wfVoteSet(ite(vote.Type == 1, hvs.roundVoteSets[vote.Round].Prevotes, hvs.roundVoteSets[vote.Round].Precommits))
 // assumed, not proved: vote sets of different rounds/types share no storage (each comes from its own NewVoteSet call),
 // hence updating one leaves the others well-formed
 //@   trusted-ensures wfHVS(hvs)
@@ -131,14 +139,14 @@ package pbft
 
 //@ func (*ConsensusState).signVote
 //@   props C03 C04
-//@   requires cs != nil && cs.privValidator != nil && cs.state != nil && wfValSet(cs.RoundState.Validators)
+//@   requires cs != nil && cs.privValidator != nil && cs.state != nil && cs.RoundState.Validators != nil
 //@   assigns  alloftype(types.PrivValidator), fs, durH, durR, durS, durBytes, durSig
 //@   ensures  [vote-is-for-current-step] result0 != nil && fresh(result0) && result0.Height == cs.RoundState.Height && result0.Round == cs.RoundState.Round && result0.Type == type_
 //@   ensures  [vote-is-for-requested-block] result0.BlockID.Hash == hash && result0.BlockID.PartsHeader == header
 
 //@ func (*ConsensusState).signAddVote
 //@   props C03 C04
-//@   requires cs != nil && cs.state != nil && (cs.privValidator != nil ==> wfValSet(cs.RoundState.Validators))
+//@   requires cs != nil && cs.state != nil && cs.RoundState.Validators != nil
 //@   assigns  alloftype(types.PrivValidator), fs, durH, durR, durS, durBytes, durSig
 //@   atcall signVote set gSignErr = result1
 //@   atcall sendInternalMessage assert [queued-only-if-signer-agreed] gSignErr == nil
@@ -148,7 +156,7 @@ package pbft
 
 //@ func (*ConsensusState).defaultDoPrevote
 //@   props C04 C01
-//@   requires cs != nil && cs.state != nil && (cs.privValidator != nil ==> wfValSet(cs.RoundState.Validators))
+//@   requires cs != nil && cs.state != nil && cs.RoundState.Validators != nil
 //@   assigns  alloftype(types.PrivValidator), fs, durH, durR, durS, durBytes, durSig, alloftype(types.Header), alloftype(types.Commit), alloftype(types.Data)
 //@   atcall signAddVote assert [prevote-type] arg_type_ == 1
 //@   atcall signAddVote assert [locked-prevotes-locked-block] cs.RoundState.LockedBlock != nil ==> arg_hash == blockHashOf(cs.RoundState.LockedBlock) \
@@ -165,8 +173,9 @@ package pbft
 //@ func (*ConsensusState).enterPrecommit
 //@   props C04 C01
 //@   let guard = cs.RoundState.Height == height && round >= cs.RoundState.Round && !(cs.RoundState.Round == round && 6 <= cs.RoundState.Step)
-//@   requires cs != nil && cs.state != nil && wfHVS(cs.RoundState.Votes) && (cs.privValidator != nil ==> wfValSet(cs.RoundState.Validators))
-//@   aborts when [pol-round-behind] round > cs.RoundState.Votes.round
+//@   requires wfCS(cs) && (cs.RoundState.Height == height ==> round <= cs.RoundState.Votes.round)
+//@   assigns  allbut(types.Vote, state.State, HeightVoteSet, ConsensusReactor)
+//@   ensures  wfCS(cs)
 //@   aborts when [polka-for-invalid-block] gValidated == nil && gPolkaOk
 //@   aborts when [polka-with-negative-part-count] gPolkaOk && gPolkaID.PartsHeader.Total < 0
 //@   atcall Prevotes set gPolkaRound = arg_round
@@ -189,8 +198,7 @@ package pbft
 // is ASSUMED (trusted-ensures) except where stated; what is proved of each body is listed on the function.
 
 //@ pred wfCS(cs *ConsensusState) = cs != nil && cs.state != nil && cs.timeoutParams != nil && cs.timeoutTicker != nil && cs.blockStore != nil \
-//@      && wfHVS(cs.RoundState.Votes) && wfValSet(cs.RoundState.Validators) && cs.RoundState.Votes.round >= cs.RoundState.Round \
-//@      && (cs.RoundState.LastCommit != nil ==> wfVoteSet(cs.RoundState.LastCommit) && majInv(cs.RoundState.LastCommit))
+//@      && cs.RoundState.Votes != nil && cs.RoundState.Validators != nil && cs.RoundState.Votes.round >= cs.RoundState.Round
 
 //@ writers RoundState.LockedBlock: enterPrecommit, addVote, updateToState, SwitchToConsensus
 //@   props C04 C01
@@ -201,27 +209,28 @@ package pbft
 
 //@ func (*ConsensusState).enterNewRound
 //@   requires wfCS(cs)
-//@   assigns everything
+//@   assigns allbut(types.Vote)
 //@   trusted
 //@   ensures wfCS(cs)
+//@   ensures cs.RoundState.Height == height ==> cs.RoundState.Votes.round >= round
 //@ func (*ConsensusState).enterPropose
 //@   requires wfCS(cs)
-//@   assigns everything
+//@   assigns allbut(types.Vote)
 //@   trusted
 //@   ensures wfCS(cs)
 //@ func (*ConsensusState).enterPrevote
 //@   requires wfCS(cs)
-//@   assigns everything
+//@   assigns allbut(types.Vote)
 //@   trusted
 //@   ensures wfCS(cs)
 //@ func (*ConsensusState).enterPrevoteWait
 //@   requires wfCS(cs)
-//@   assigns everything
+//@   assigns allbut(types.Vote)
 //@   trusted
 //@   ensures wfCS(cs)
 //@ func (*ConsensusState).enterPrecommitWait
 //@   requires wfCS(cs)
-//@   assigns everything
+//@   assigns allbut(types.Vote)
 //@   trusted
 //@   ensures wfCS(cs)
 //@ func (*ConsensusState).isProposalComplete
@@ -275,3 +284,30 @@ package pbft
 //@   atcall SaveBlock assert [stored-block-validated] gValidated == arg_block
 //@   atcall SaveBlock assert [stored-seen-commit-is-that-majority] arg_seenCommit == gSeen && arg_block == cs.RoundState.ProposalBlock && arg_blockParts == cs.RoundState.ProposalBlockParts
 //@   atcall ApplyBlock assert [applied-block-is-the-committed-one] gMajOk && gValidated == arg_block && bytesEq(blockHashOf(arg_block), gMajID.Hash)
+
+//@ func (*ConsensusState).enterCommit
+//@   requires wfCS(cs)
+//@   assigns allbut(types.Vote)
+//@   trusted
+//@   ensures wfCS(cs)
+
+//@ ghost gUnlockPre Bool
+//@ ghost gLockedHash Bytes
+
+//@ func (*ConsensusState).addVote
+//@   props C04 C08 C01
+//@   requires wfCS(cs) && vote != nil
+//@   aborts when [where-enterPrecommit-aborts] calls(enterPrecommit) >= 1
+//@   atcall Prevotes set gPolkaRound = arg_round
+//@   atcall Precommits set gMajRound = arg_round
+//@   atcall TwoThirdsMajority set gPolkaOk = result1
+//@   atcall TwoThirdsMajority set gPolkaID = result0
+//@   atcall TwoThirdsMajority set gUnlockPre = cs.RoundState.LockedBlock != nil && cs.RoundState.LockedRound < vote.Round && vote.Round <= cs.RoundState.Round
+//@   atcall TwoThirdsMajority set gLockedHash = blockHashOf(cs.RoundState.LockedBlock)
+//@   onwrite RoundState.LockedBlock assert [unlock-needs-later-polka-for-something-else] newval == nil && vote.Type == 1 && gUnlockPre && gPolkaOk && gPolkaRound == vote.Round && (len(gPolkaID.Hash) == 0 || !bytesEq(gLockedHash, gPolkaID.Hash))
+//@   onwrite RoundState.LockedRound assert [unlock-needs-later-polka-for-something-else] newval == 0 && vote.Type == 1 && gUnlockPre && gPolkaOk && gPolkaRound == vote.Round && (len(gPolkaID.Hash) == 0 || !bytesEq(gLockedHash, gPolkaID.Hash))
+//@   onwrite RoundState.LockedBlockParts assert [unlock-needs-later-polka-for-something-else] newval == nil && vote.Type == 1 && gUnlockPre && gPolkaOk && gPolkaRound == vote.Round
+//@   atcall enterCommit assert [commit-needs-two-thirds-precommits-for-a-block-in-one-round] vote.Type == 2 && gPolkaOk && gMajRound == vote.Round && len(gPolkaID.Hash) != 0 && arg_commitRound == vote.Round
+//@   ensures  [rejected-vote-triggers-nothing] !added ==> calls(enterNewRound) == 0 && calls(enterPrevote) == 0 && calls(enterPrecommit) == 0 && calls(enterCommit) == 0 && calls(enterPrevoteWait) == 0 && calls(enterPrecommitWait) == 0
+//@   ensures  [rejected-vote-leaves-round-state] !added ==> cs.RoundState.LockedBlock == old(cs.RoundState.LockedBlock) && cs.RoundState.LockedRound == old(cs.RoundState.LockedRound) && cs.RoundState.Step == old(cs.RoundState.Step) && cs.RoundState.Round == old(cs.RoundState.Round) && cs.RoundState.Height == old(cs.RoundState.Height) \
+//@              && cs.RoundState.Proposal == old(cs.RoundState.Proposal) && cs.RoundState.ProposalBlock == old(cs.RoundState.ProposalBlock) && cs.RoundState.CommitRound == old(cs.RoundState.CommitRound)
